@@ -163,6 +163,27 @@ func sharedConsumerGrammar(r *Rand) *Grammar {
 func longInputGrammar(r *Rand) (*Grammar, func(n int) string) {
 	g := &Grammar{}
 	add := func(n GNode) int { g.Nodes = append(g.Nodes, n); return len(g.Nodes) - 1 }
+	if r.Chance(1, 4) {
+		// DEEP right recursion: P -> 'a' P | 'b' (memoised), asked by two alternatives of the
+		// root - nesting as deep as the input is long (counters per level, not per position)
+		p := add(GNode{})
+		ref := add(GNode{Op: "ref", Kids: []int{p}})
+		step := add(GNode{Op: "seq", Kids: []int{add(GNode{Op: "rune", Arg: "a"}), ref}})
+		g.Nodes[p] = GNode{Op: "any", Kids: []int{step, add(GNode{Op: "rune", Arg: "b"})}, Memo: true}
+		if r.Chance(1, 2) {
+			g.Nodes[p].Op = "choice"
+		}
+		a1 := add(GNode{Op: "seq", Kids: []int{p, add(GNode{Op: "rune", Arg: "x"})}})
+		a2 := add(GNode{Op: "seq", Kids: []int{p, add(GNode{Op: "rune", Arg: "y"})}})
+		g.Root = add(GNode{Op: "any", Kids: []int{a1, a2}})
+		last := []string{"x", "y", "q"}[r.Intn(3)]
+		return g, func(n int) string {
+			if n > 1500 {
+				n = 300 + n%1200
+			}
+			return strings.Repeat("a", n) + "b" + last
+		}
+	}
 	var item int
 	var unit []string
 	switch r.Intn(4) {
@@ -225,7 +246,11 @@ func (*c03Prop) Gen(r *Rand, pl *Plan) Case {
 		n := len(c.G.Nodes)
 		for i := 0; i < 2; i++ {
 			c.History = append(c.History, c03Event{Kind: "plain", Order: randPerm(r, n), MapSeed: r.U64()})
-			c.History = append(c.History, c03Event{Kind: "memo", Order: randPerm(r, n), Churn: r.Intn(5), MapSeed: r.U64(), Identity: r.Chance(1, 6)})
+			ch := r.Intn(5)
+			if r.Chance(1, 6) {
+				ch = []int{33000, 66000, 130}[r.Intn(3)] // parser indexes beyond 2^15 / 2^16
+			}
+			c.History = append(c.History, c03Event{Kind: "memo", Order: randPerm(r, n), Churn: ch, MapSeed: r.U64(), Identity: r.Chance(1, 6)})
 		}
 		c.History = append(c.History, c03Event{Kind: "memo", Order: randPerm(r, n), MapSeed: r.U64(), Reuse: r.Bool()})
 		return c
@@ -346,6 +371,7 @@ func newGuard(long bool) *guardState {
 	g := &guardState{maxDepth: 600, maxCal: 60000, maxList: 96, once: map[[2]int]int{}, outerCalls: map[int]int{}}
 	if long {
 		g.maxCal = 600000
+		g.maxDepth = 40000 // the deep right-recursive workload nests as deep as its input is long
 	}
 	return g
 }
